@@ -15,6 +15,7 @@ import re
 
 F_GENERIC = "named-pattern-matches-instantiations"
 F_ALIAS = "named-pattern-alias-name"
+F_NESTED = "vendored-copy-nested-vendor-directories"
 
 
 def coq_str_list(xs):
@@ -164,6 +165,8 @@ def run(c):
                                 finding = F_GENERIC
                             elif ob == "0" and o["names_alias"][i]:
                                 finding = F_ALIAS
+                            elif ob == "0" and o["nested_vendor"][j]:
+                                finding = F_NESTED
                         c.fail("oracle", "Pattern.MatchIdentical contradicts the assignment search"
                                + (" and types.Identical with the spelled type" if cl in "01" else ""),
                                input=dict(ctx, pattern=p, type=t), expected=expected == "1", observed=ob == "1", finding=finding)
@@ -192,6 +195,33 @@ def run(c):
                                input=dict(ctx, pattern=pat, filter=kinds_[kind], probes="harness/cmd/c10 engine section"),
                                expected=exp[:20], observed=got[:20])
                 c.coverage["engine_rules"] = len(eo.get("oracle") or {})
+            # ---- group sequences: the same pattern strings in groups with different Import() sets, several files, one engine
+            go_ = o.get("groups")
+            if go_ is not None:
+                if go_.get("panic"):
+                    c.fail("oracle", "Run fails on the group-sequence probe file", input=ctx, observed=go_["panic"], expected="reports")
+                files = go_["files"]
+                for f in files:
+                    if f["load_err"]:
+                        c.fail("oracle", "a rules file whose groups spell resolvable type patterns does not load",
+                               input=dict(ctx, file=f["name"], rules=f["rules"]), observed=f["load_err"], expected="loads")
+                kinds_ = {"is": "Type.Is", "uis": "Type.Underlying().Is", "snk": "SinkType.Is"}
+                for ru in go_["rules"]:
+                    f = files[ru["file"]]
+                    if f["load_err"]:
+                        continue
+                    c.evaluations += 1
+                    if ru["oracle"]:
+                        c.nontrivial.add((mode, "groups", tuple(tuple(g) for g in f["groups"]), ru["group"], ru["kind"], ru["pattern"]))
+                    if ru["obs"] != ru["oracle"]:
+                        c.fail("oracle", "%s(`%s`) in group %s does not denote the types its qualified names stand for under the "
+                               "group's own import table (%s)" % (kinds_[ru["kind"]], ru["pattern"], ru["group"], ru["meaning"] or "no qualified name"),
+                               input=dict(ctx, file=f["name"], rules=f["rules"], group=ru["group"], imports=ru["imports"],
+                                          groups_of_the_file=f["groups"], pattern=ru["pattern"], filter=kinds_[ru["kind"]],
+                                          probes=go_["probes"]),
+                               expected=ru["oracle"], observed=ru["obs"])
+                c.coverage["group_sequence_files"] = len(files)
+                c.coverage["group_sequence_rules"] = len(go_["rules"])
             if have_model:
                 c.coverage["model_vs_impl_cases"] = c.coverage.get("model_vs_impl_cases", 0) + len(pats) * len(tys)
             c.coverage["patterns"] = len(pats)
